@@ -38,6 +38,9 @@ CHECKS = {
 
  'C16': ('Q3 two-way embeddings: scaled asset (fixed scale, and free scale with the scale as symbolic LP variable) vs base asset with scaled quantities; structured vs flat portfolio; Q1 external dispatch', '6 C16',
          'Scaled storage/transport/contract/take contract: same feasible dispatch and value = base value - fix_costs*s*(active duration of the scaled asset) for all base parameters and prices; free scale: for every sigma in [min,max] the free problem restricted to sigma is the base problem scaled by sigma/S; structured vs flat: same feasible set, value and external dispatch.'),
+
+ 'C14': ('Q2 structural identity of the split mapping against the interval problems (original-grid steps, shifted indices, coverage), Q3 embeddings split<->unsplit by concatenation', '6 C14',
+         'Uncoupled portfolios (aligned/unaligned horizons, anchored weekly intervals, one-step tail, day/minute main unit, symbolic wacc): split and unsplit problem have the same feasible set and value under concatenation for all parameters and prices; storages with start=end: every split point is feasible for the unsplit problem with at least its value (split optimum <= unsplit optimum, limits and balances hold on the original grid).'),
 }
 NA = {}
 props = [json.loads(l) for l in open(os.path.join(ROOT, 'properties.jsonl'))]
